@@ -156,6 +156,15 @@ def make_case(prop, st, op, before, after, res, fault, cls, outside_changed=None
     viol = []
     if res["result"] in ("crash", "timeout"):
         viol.append("the operation crashed or hung: " + res["detail"][:300])
+    if prop in ("C08", "C01") and op[0] in ("add", "update", "init"):
+        # the theorems assume a FRESH temp file (tmp_fresh): it must be created exclusively, otherwise two
+        # writers of one user (agent and command line, two agents) write into the same file and one of
+        # them installs the other's record under its own acknowledgement
+        for a in res["accesses"]:
+            if a[0] == "KOpen" and a[1][0] == "tmpfile" and a[2] and "O_CREAT" in a[5] and "O_EXCL" not in a[5]:
+                viol.append("the temp file %s is opened with O_CREAT but without O_EXCL (%s): concurrent writers of the same user share it"
+                            % (a[1][1], a[5][:120]))
+                break
     if prop == "C08" and op[0] in ("auth", "exists", "list", "listfull", "check"):
         # a reader in another process sees each record in ONE state (old or new) only if it reads the
         # file through one open: a second open of the same name may already be the writer's new file
